@@ -200,3 +200,16 @@ Proof.
     split; [exact Hp|]. destruct (packet_roundtrip _ Hp) as (bs & Hm & Hl & offs & Hu).
     exists bs, offs. auto.
 Qed.
+
+(* ... into any receiver, fresh or used (the result does not depend on it) *)
+Theorem packet_reencode_any prev buf r : bytes_ok buf ->
+  packet_unmarshal_into prev buf = Ok r ->
+  let q := pr_packet r in
+  (padding (hdr q) = true /\ padding_size q = 0 /\ packet_marshal q = Err EInvalidPadding) \/
+  (wf_packet q /\ exists bs offs, packet_marshal q = Ok bs /\ zlen bs = packet_marshal_size q /\
+     packet_unmarshal_into prev bs = Ok (mkPktResult q (header_marshal_size (hdr q)) offs)).
+Proof.
+  intros Hok Hrun. rewrite packet_unmarshal_reuse in Hrun.
+  destruct (packet_reencode buf r Hok Hrun) as [H|(Hw & bs & offs & H1 & H2 & H3)]; [left; exact H|right].
+  split; [exact Hw|]. exists bs, offs. rewrite packet_unmarshal_reuse. auto.
+Qed.
